@@ -1412,7 +1412,7 @@ def lro_api(rng, name, broken=None, rest=False):
     produces a request that must be rejected."""
     api = Api(name)
     tags = api.tags
-    ver = "v1"
+    ver = rng.choice(["v2", "v1beta1", "v3"]) if rest == "norules" else "v1"
     pkg = f"vp.{name}.{ver}"
     P = "." + pkg
     dirp = f"vp/{name}/{ver}"
@@ -1493,15 +1493,20 @@ def lro_api(rng, name, broken=None, rest=False):
         # over REST the operation future polls google.longrunning.Operations where the service YAML's http rules say it is
         # served — whether or not the YAML also lists Operations as a mixin under `apis`
         api.options = ["transport=grpc+rest", "autogen-snippets=false"]
-        prefix = rng.choice(["/lro/v1", "/v1beta9/ops", "/x"])
-        in_apis = (rng.random() < 0.5) if rest is True else (rest == "listed")
-        rules = [{"selector": "google.longrunning.Operations.GetOperation", "get": prefix + "/{name=operations/**}"},
-                 {"selector": "google.longrunning.Operations.CancelOperation", "post": prefix + "/{name=operations/**}:cancel", "body": "*"},
-                 {"selector": "google.longrunning.Operations.DeleteOperation", "delete": prefix + "/{name=operations/**}"},
-                 {"selector": "google.longrunning.Operations.ListOperations", "get": prefix + "/{name=operations}"}]
-        api.aux["service-yaml"] = ("svc.yaml", service_yaml(api, mixins=["operations"] if in_apis else [], rules={"operations": []}, extra_rules=rules))
-        api.info["rest_lro"] = {"prefix": prefix, "operations_listed_under_apis": in_apis}
-        tags.update(["rest-lro", "ops-in-apis:" + str(in_apis)])
+        if rest == "norules":
+            # no Operations http rule anywhere: the fallback binding of api-core is used, under the API's own version
+            api.info["rest_lro"] = {"prefix": "/" + ver, "operations_listed_under_apis": False, "rules": False}
+            tags.update(["rest-lro", "rest-lro-without-rules", "ver:" + ver])
+        else:
+            prefix = rng.choice(["/lro/v1", "/v1beta9/ops", "/x"])
+            in_apis = (rng.random() < 0.5) if rest is True else (rest == "listed")
+            rules = [{"selector": "google.longrunning.Operations.GetOperation", "get": prefix + "/{name=projects/*/operations/*}"},
+                     {"selector": "google.longrunning.Operations.CancelOperation", "post": prefix + "/{name=projects/*/operations/*}:cancel", "body": "*"},
+                     {"selector": "google.longrunning.Operations.DeleteOperation", "delete": prefix + "/{name=projects/*/operations/*}"},
+                     {"selector": "google.longrunning.Operations.ListOperations", "get": prefix + "/{name=projects/*}/operations"}]
+            api.aux["service-yaml"] = ("svc.yaml", service_yaml(api, mixins=["operations"] if in_apis else [], rules={"operations": []}, extra_rules=rules))
+            api.info["rest_lro"] = {"prefix": prefix, "operations_listed_under_apis": in_apis, "rules": True}
+            tags.update(["rest-lro", "ops-in-apis:" + str(in_apis)])
     return api
 
 
